@@ -12,8 +12,11 @@ from ..runner import run_monitored
 
 def two_histories(rng, flen):
     cfgs = [G.rand_cfg(rng), G.rand_cfg(rng)]
-    if cfgs[0]["mac"] == cfgs[1]["mac"]:
-        cfgs[1]["mac"] = G.rand_mac(rng)
+    r = rng.random()
+    if r < 0.15:
+        cfgs[1]["mac"] = cfgs[0]["mac"]            # bond slaves, VLAN / macvlan sub-interfaces, a cloned address: two interfaces, one address
+    elif r < 0.3:
+        cfgs[1]["mac"] = G.related_mac(rng, cfgs[0]["mac"])      # consecutive addresses of a multi-port adapter
     if rng.random() < 0.5:
         cfgs[1]["mtu"] = cfgs[0]["mtu"]            # same-size buffers are recycled between the interfaces
     for c in cfgs:
@@ -51,7 +54,7 @@ def make_sequential(ctx, npairs, nint=3):
         glob = G.rand_global(rng, icon_size=rng.choice([0, 700, 3000]))
 
         def mk(sid, order, kind):
-            s = H.Scenario(sid, meta=dict(pair=i, kind=kind, order=order))
+            s = H.Scenario(sid, meta=dict(pair=i, kind=kind, order=order, same_mac=cfgs[0]["mac"] == cfgs[1]["mac"]))
             s.iface(0, **H.iface_kw(cfgs[0])).iface(1, **H.iface_kw(cfgs[1])).glob(**G.global_kw(glob))
             s.add("OPT sleep=1")
             pos = [0, 0]
@@ -101,6 +104,8 @@ def seq_monitor(scn, sobj, rep, sf, ck):
         return
     if meta["kind"] == "inter":
         ent["inter"].append((scn.sid, tr, sobj))
+        if meta.get("same_mac"):
+            rep.count("interleavings_of_two_interfaces_with_one_address")
     else:
         t = 0 if meta["kind"] == "solo0" else 1
         ent["solo"][t] = tr[t]
@@ -236,4 +241,5 @@ def run(ctx):
     # interface's response left in a recycled block must not show up in the other interface's frames
     run_monitored(ctx, plain, scns, seq_monitor, tag="seq-plain", nshards=16, env_extra={"VH_FILL": "-1"})
     rep.need("interleavings_checked", rep.counters.get("interleavings_checked", 0), ctx.n(3400, 116000))
+    rep.need("interleavings_of_two_interfaces_with_one_address", rep.counters.get("interleavings_of_two_interfaces_with_one_address", 0), 100)
     run_threads(ctx, ctx.n(8, 64), ctx.n(300, 5000))
